@@ -402,7 +402,7 @@ RunResult run(J const &plan) {
   { SimRun sim(1); test = execute(plan, false, true); sim.finish(res); }
   res.counters["steps"] += (long long)test.recs.size();
   res.counters["probe.script_commands"] += test.commands;
-  res.counters["probe.commands_returning_error"] += test.errors_returned;
+  res.counters["probe.commands_returning_error"] += test.errors_returned; res.counters["fault.command_refused"] += test.errors_returned;
   res.counters["probe.agreement_checks"] += test.agreements;
   res.counters["probe.steps_after_failed_command"] += test.steps_after_failed;
   res.counters["probe.definitions_refused"] += test.refused_definitions;
